@@ -44,6 +44,20 @@ func (rt *Transfer) deleteFiles(fileList []*File) error {
 			if findInFileList(fileList, path) {
 				return nil
 			}
+			if rt.Opts.ExcludeFromDelete != nil && rt.Opts.ExcludeFromDelete(path) {
+				// Excluded entries are protected from deletion
+				// (there is no --delete-excluded yet).
+				if info.IsDir() {
+					return fs.SkipDir
+				}
+				return nil
+			}
+			if info.IsDir() && rt.subtreeHasExcluded(path) {
+				// Descend instead of removing the whole directory: its
+				// unprotected entries are deleted one by one, the
+				// protected ones (and hence the directory) stay.
+				return nil
+			}
 			if rt.Opts.Verbose {
 				rt.Logger.Printf("  deleting %s", path)
 			}
@@ -69,6 +83,26 @@ func (rt *Transfer) deleteFiles(fileList []*File) error {
 		}
 	}
 	return nil
+}
+
+// subtreeHasExcluded reports whether any entry below dir is excluded by the
+// filter rules and therefore protected from deletion.
+func (rt *Transfer) subtreeHasExcluded(dir string) bool {
+	if rt.Opts.ExcludeFromDelete == nil {
+		return false
+	}
+	found := false
+	fs.WalkDir(rt.DestRoot.FS(), dir, func(path string, _ fs.DirEntry, err error) error {
+		if err != nil {
+			return nil
+		}
+		if path != dir && rt.Opts.ExcludeFromDelete(path) {
+			found = true
+			return fs.SkipAll
+		}
+		return nil
+	})
+	return found
 }
 
 // waitFor calls f and waits for it to complete, but only until the specified
